@@ -216,6 +216,13 @@ impl Router {
                 params: to_value(result).unwrap(),
             }));
 
+            // the edit travels in workspace/applyEdit; the command request itself is answered too
+            self.respond(Response {
+                id: request.id,
+                result: Some(serde_json::Value::Null),
+                error: None,
+            });
+
             return false;
         }
 
